@@ -20,6 +20,9 @@ pub(crate) static mut IN_OFF: usize = 0;
 pub(crate) static mut IN_EOF: u8 = 0;
 /// transport never fails when set (healthy-transport harnesses)
 pub(crate) static mut IO_HEALTHY: bool = false;
+/// reads deliver everything requested and writes accept everything offered (fragmentation is the
+/// subject of c13_write_all_contract / c15_read_packet_*; the handshake harnesses switch it off)
+pub(crate) static mut IO_WHOLE: bool = false;
 
 /// When set, every `read` checks that all bytes delivered so far have been committed to the
 /// PacketReader it points to: the projection's form of "progress is recorded before every await".
@@ -49,7 +52,7 @@ impl crate::Io for SymIoP {
                 IN_EOF += 1;
                 return Ok(0);
             }
-            let k: usize = kani::any();
+            let k: usize = if IO_WHOLE { buf.len().min(IN_LEN - IN_OFF) } else { kani::any() };
             kani::assume(k >= 1 && k <= buf.len() && k <= IN_LEN - IN_OFF);
             let mut i = 0;
             while i < k {
@@ -84,7 +87,7 @@ impl crate::Io for SymIoP {
                 g::IO_ERRS += 1;
                 return Err(ErrorKind::BrokenPipe);
             }
-            let k: usize = kani::any();
+            let k: usize = if IO_WHOLE { buf.len() } else { kani::any() };
             kani::assume(k >= 1 && k <= buf.len());
             g::io_record_write(buf, k);
             Ok(k)
@@ -286,6 +289,7 @@ pub(crate) fn reset_all() {
         N_READPKT = 0;
         CHECK_ENQ = false;
         IO_HEALTHY = false;
+        IO_WHOLE = false;
         IN_LEN = 0;
         IN_OFF = 0;
         IN_EOF = 0;
@@ -412,3 +416,89 @@ proj_harness!(c15_read_packet_commits_and_latches, 9, { read_body(true) });
 // @harness funcs="Connection::read_packet, fill_packet_reader (projection) with a declared length above the receive buffer"
 // @harness sym="stream bytes with remaining length 5..127, chunking" bounds="6-byte receive buffer"
 proj_harness!(c14_oversize_inbound_latches_p, 9, { read_body(false) });
+
+// ---------------------------------------------------------------------------------------------
+// C10: service / maybe_queue_pingreq with a symbolic clock
+// ---------------------------------------------------------------------------------------------
+// @harness props=C10,C11,C16 tier=quick layer=L3p unwind=8
+// @harness funcs="Connection::service, service_outbound_once, maybe_queue_pingreq, should_queue_pingreq (projection)"
+// @harness sym="now, next_ping, ping_timeout (Option<ticks>), whether a PINGREQ is already queued, live, current outbound entry, step outcome (A1)" bounds="one service() call; keep-alive 60 s"
+// @harness assumes="A1, K1; check_control_packet_size real"
+proj_harness!(c10_service_ping_and_timeout, 8, {
+    reset_all();
+    let mut rx = [0u8; 8];
+    let mut tx = [0u8; 16];
+    let mut session = Session::new(ConfigBuilder::new(Buffers::new(&mut rx, &mut tx)).keepalive_interval(60));
+    let now_t: u64 = kani::any();
+    kani::assume(now_t < (1 << 60));
+    let now = Instant::from_ticks(now_t);
+    let np: Option<u64> = if kani::any() { Some(kani::any()) } else { None };
+    let pt: Option<u64> = if kani::any() { Some(kani::any()) } else { None };
+    session.runtime.next_ping = np.map(Instant::from_ticks);
+    session.runtime.ping_timeout = pt.map(Instant::from_ticks);
+    // ghost: nothing queued, or a PINGREQ already queued/in progress
+    let ping_queued: bool = kani::any();
+    unsafe {
+        if ping_queued {
+            g::KIND = g::K_PING;
+            g::LEN = 2;
+            g::WRITTEN = 0;
+        }
+    }
+    let live: bool = kani::any();
+    let mut conn = Connection { session: &mut session, io: SymIoP, event: ConnectEvent::Connected, live };
+    let r = conn.service(now);
+    unsafe {
+        let timed_out = pt.map_or(false, |d| now_t >= d);
+        if timed_out {
+            assert!(matches!(r, Err(Error::Disconnected)), "C10: an unanswered PINGREQ past its deadline must end with Disconnected");
+            assert!(!conn.live && g::N_ARM >= 1, "C11: the keep-alive timeout latches the handle");
+            assert!(N_STEP == 0 && g::IO_WRITES == 0, "C10: nothing is written once the peer is declared dead");
+        } else {
+            assert!(!(matches!(r, Err(Error::Disconnected)) && live), "C10: Disconnected before the round-trip bound has elapsed");
+            let due = pt.is_none() && np.map_or(false, |d| now_t >= d) && !ping_queued;
+            assert!(g::N_QPING == due as u8, "C10: a PINGREQ is queued exactly when the ping deadline has passed, none is outstanding and none is queued");
+            if due || ping_queued {
+                assert!(N_STEP == 1, "C10: the queued PINGREQ is driven in the same service call");
+            }
+            if let Ok(advanced) = r {
+                assert!(advanced == (N_STEP == 1), "C16: service reports progress iff a step was performed");
+            }
+        }
+    }
+    kani::cover!(matches!(r, Ok(true)) && unsafe { g::N_QPING } == 1);
+    kani::cover!(matches!(r, Err(Error::Disconnected)) && live);
+    kani::cover!(matches!(r, Ok(false)));
+});
+
+// @harness props=C10 tier=quick layer=L3p unwind=8
+// @harness funcs="Connection::service, should_queue_pingreq, RuntimeState::keepalive_send_interval (projection)"
+// @harness sym="keep-alive K (1..=65535 s), time t of the last completed PINGREQ, now in (t + K, ...)" bounds="one service() call with a PINGREQ outstanding (ping_timeout armed)"
+// @harness assumes="A1, K1; KNOWN FINDING F10 tagged"
+proj_harness!(c10_gap_bound_ping_outstanding, 8, {
+    reset_all();
+    let mut rx = [0u8; 8];
+    let mut tx = [0u8; 16];
+    let k: u16 = kani::any();
+    kani::assume(k >= 1);
+    let mut session = Session::new(ConfigBuilder::new(Buffers::new(&mut rx, &mut tx)).keepalive_interval(k));
+    let t: u64 = kani::any();
+    kani::assume(t < (1 << 50));
+    let t_last = Instant::from_ticks(t);
+    // state right after a PINGREQ completed at t_last (c01_step_ping_*: both timers set from `now`)
+    session.runtime.note_outbound_activity(t_last);
+    session.runtime.ping_timeout = Some(t_last + Duration::from_millis(ROUND_TRIP_TIMEOUT_MS));
+    let now_t: u64 = kani::any();
+    kani::assume(now_t < (1 << 51));
+    let now = Instant::from_ticks(now_t);
+    // the whole keep-alive has elapsed since the last client packet and no PINGRESP has arrived
+    kani::assume(now > t_last + Duration::from_secs(k as u64));
+    let mut conn = Connection { session: &mut session, io: SymIoP, event: ConnectEvent::Connected, live: true };
+    let r = conn.service(now);
+    unsafe {
+        let acted = matches!(r, Err(Error::Disconnected)) || g::N_QPING == 1 || N_STEP >= 1;
+        // modulo F10: for keep-alive >= 5 s the round-trip timeout has expired by now
+        assert!(acted || k < 5, "C10: the keep-alive elapsed with a PINGREQ outstanding and service() neither pinged nor disconnected (keep-alive >= 5 s)");
+        assert!(acted, "KF:F10/short-keepalive-gap C10: with keep-alive < 5 s and a PINGREQ outstanding nothing is sent between t + keep-alive and t + 5 s (gap between client packets exceeds the keep-alive)");
+    }
+});
